@@ -64,7 +64,7 @@ Proof.
 Qed.
 
 Lemma lr_bounded_rel r0 sz : sz < two64 ->
-  rops_rel (frame_rel r0 sz) (bounded_rops lr_ops) lr_ops.
+  rops_rel true (frame_rel r0 sz) (bounded_rops lr_ops) lr_ops.
 Proof.
   intros Hs. split; cbn [bounded_rops lr_ops r_ensure r_read1 r_readn r_skip r_gethandle].
   - (* Ensure *)
@@ -130,7 +130,7 @@ Qed.
 
 (* ---- a framed table entry --------------------------------------------------- *)
 Lemma dec_frame t' sz r : sz < two64 ->
-  rel_res (frame_rel r sz) (dec t' (bounded_rops lr_ops) (b_make r sz))
+  rel_res true (frame_rel r sz) (dec t' (bounded_rops lr_ops) (b_make r sz))
           (dec t' lr_ops (firstn (tn sz) r)).
 Proof.
   intros Hs. unfold dec. apply dec_with_sim.
